@@ -63,6 +63,8 @@ def do(o, q, args):
         a = [a[0], dict(a[1])]
     try:
         if q == "get_linear_complexity":
+            if len(a) > 2 and isinstance(a[2], dict):
+                return ("ok", freeze(getattr(o, q)(a[0], a[1], dict(a[2]), *a[3:])))
             return ("ok", freeze(getattr(o, q)(*a[:2], {}, *a[2:]) if len(a) > 2 else getattr(o, q)(*a)))
         return ("ok", freeze(getattr(o, q)(*a)))
     except Exception as e:   # noqa
@@ -119,9 +121,16 @@ class Sim:
         return self.nt, ["objects:%d" % len(self.objs), "steps:%s" % ("<5" if self.nsteps < 5 else "5-14" if self.nsteps < 15 else ">=15")] + ["q:" + q for q in sorted(used)]
 
 
+USER = st.sampled_from([
+    {a: ("L" if a in "LVIMCAGSTPFYW" else "E") for a in ref.AA},
+    {a: ("K" if a in "KRH" else "D" if a in "DE" else "G") for a in ref.AA},
+    {a: ("S" if a in "STNQ" else "A") for a in ref.AA},
+    {a: a for a in ref.AA},
+    {a: ref.AA[(i + 1) % 20] for i, a in enumerate(ref.AA)},
+])
 GROUP = st.lists(st.sampled_from(list(ref.AA)), min_size=1, max_size=5, unique=True)
 PH = st.one_of(st.sampled_from([0, 7, 14, 7.4, 3.9]), st.floats(0, 14), st.sampled_from([-1, 15]))
-W = st.integers(1, 34)
+W = st.one_of(st.integers(1, 34), st.sampled_from([1, 1, 2, 5, 6]))
 
 
 @st.composite
@@ -152,7 +161,12 @@ def queries(draw):
         return {"obj": obj, "q": q, "args": a}
     if kind == 8:
         if draw(st.booleans()):
-            return {"obj": obj, "q": "get_reduced_alphabet_sequence", "args": [draw(st.sampled_from(sorted(ref.PARTITIONS) + [7, 0]))]}
+            a = [draw(st.sampled_from(sorted(ref.PARTITIONS) + [7, 0]))]
+            if draw(st.booleans()):
+                a = [20, draw(USER)]
+            return {"obj": obj, "q": "get_reduced_alphabet_sequence", "args": a}
+        if draw(st.integers(0, 2)) == 0:
+            return {"obj": obj, "q": "get_linear_complexity", "args": [draw(st.sampled_from(["WF", "LC", "LZW"])), 20, draw(USER), draw(st.integers(1, 12)), draw(st.integers(1, 5)), draw(st.integers(1, 4))]}
         return {"obj": obj, "q": "get_linear_complexity", "args": [draw(st.sampled_from(["WF", "LC", "LZW", "lc", "XX"])), draw(st.sampled_from(sorted(ref.PARTITIONS))),
                                                                       draw(st.integers(1, 32)), draw(st.integers(1, 5)), draw(st.integers(1, 4))]}
     return {"obj": obj, "q": "get_PPII_propensity", "args": [draw(st.sampled_from(["hilser", "creamer", "kallenbach", "HILSER", "nope"]))]}
